@@ -94,7 +94,7 @@ def expected_keys(path, shape, bounds, region=None):
     return {pre + "/".join(map(str, c)) for c in itertools.product(*ranges)}
 
 
-def analyse_trace(state, inner_dict, region_of=None, only_paths=None):
+def analyse_trace(state, inner_dict, region_of=None, only_paths=None, never_written_ok=None):
     """Single-writer analysis. Returns (failures, stats)."""
     from vp.harness import split_key
 
@@ -120,6 +120,14 @@ def analyse_trace(state, inner_dict, region_of=None, only_paths=None):
                 arrays[k[: -len("/zarr.json")] if "/" in k else ""] = m
     written_paths = {split_key(k)[0] for k in sets}
     stats = {"arrays": 0, "keys": 0, "multi_chunk_arrays": 0}
+    # an array that exists in the store after the computation but received no chunk write at all (a target that no task wrote)
+    for path, m in sorted(arrays.items()):
+        if path in written_paths or (only_paths is not None and path not in only_paths) or (never_written_ok is not None and path in never_written_ok):
+            continue
+        shape, bounds = grid_from_meta(m)
+        if 0 in shape:
+            continue
+        fails.append(("uncovered", path, f"array of shape {tuple(shape)} exists in the store but no task wrote any of its chunks"))
     for path in sorted(written_paths):
         if only_paths is not None and path not in only_paths:
             continue
@@ -279,8 +287,9 @@ def check_case(case) -> Outcome:
     region_of = sink_ctx.region_of()
     fails, stats = analyse_trace(ts.state, inner, region_of)
     # targets living in their own traced stores
+    rejected_paths = {t.path for t in sink_ctx.targets if t.sink["cls"] in ("region-misaligned", "existing-smaller", "existing-larger-unaligned")}
     for tstore in sink_ctx.stores:
-        f2, s2 = analyse_trace(tstore.state, dict(tstore._store._store_dict), region_of)
+        f2, s2 = analyse_trace(tstore.state, dict(tstore._store._store_dict), region_of, never_written_ok=rejected_paths)
         fails += f2
         for k in stats:
             stats[k] += s2[k]
